@@ -102,9 +102,44 @@ def _and_operands(test: ast.expr) -> list[ast.expr]:
     return [test]
 
 
+def _resolver(tree: ast.Module, cls: str | None):
+    """callee text -> FunctionDef for helpers defined in the same module: `self.m` / `cls.m` / `<Class>.m` for a method of
+    the class `cls` (defined once, at most @staticmethod/@classmethod), a bare name for a module-level function.  A call of
+    such a helper is not an unknown callee: its body is censused like the caller's (transitively)."""
+    methods: dict[str, ast.FunctionDef] = {}
+    funcs: dict[str, ast.FunctionDef] = {}
+    dup: set[str] = set()
+    for n in tree.body:
+        if isinstance(n, ast.FunctionDef):
+            if n.name in funcs:
+                dup.add(n.name)
+            funcs[n.name] = n
+        if isinstance(n, ast.ClassDef) and n.name == cls:
+            for m in n.body:
+                if isinstance(m, ast.FunctionDef):
+                    if m.name in methods:
+                        dup.add('.' + m.name)
+                    methods[m.name] = m
+
+    def plain(f: ast.FunctionDef) -> bool:
+        return all(isinstance(d, ast.Name) and d.id in ('staticmethod', 'classmethod') for d in f.decorator_list)
+
+    def resolve(callee: str) -> ast.FunctionDef | None:
+        head, _, name = callee.rpartition('.')
+        if head in ('self', 'cls', cls) and name in methods and '.' + name not in dup and plain(methods[name]):
+            return methods[name]
+        if head == '' and name in funcs and name not in dup and not funcs[name].decorator_list:
+            return funcs[name]
+        return None
+    return resolve
+
+
 class _Census:
-    def __init__(self, func: ast.FunctionDef, callees_ok: set[str], methods_ok: set[str]) -> None:
+    def __init__(self, func: ast.FunctionDef, callees_ok: set[str], methods_ok: set[str], resolve=None, stack: tuple[str, ...] = ()) -> None:
         self.func = func
+        self.resolve = resolve
+        self.stack = stack + (func.name,)
+        self.helpers: list[ast.FunctionDef] = []
         self.par = _parents(func)
         self.callees_ok, self.methods_ok = callees_ok, methods_ok
         # names whose truthiness is "non-empty": annotated str / list[...] (arguments and annotated assignments)
@@ -186,6 +221,17 @@ class _Census:
                     self.sites.append(dict(kind='conv', line=n.lineno, base=callee, index='', node=n, guard=self.guard(n, 'conv', None)))
                 elif callee in self.callees_ok or (isinstance(n.func, ast.Attribute) and n.func.attr in self.methods_ok):
                     pass
+                elif self.resolve is not None and self.resolve(callee) is not None and self.resolve(callee).name not in self.stack:
+                    # a helper of the same class / module: census its body too; a site that is unguarded inside the helper is
+                    # guarded if the call itself sits in a try block that catches that kind of exception
+                    h = self.resolve(callee)
+                    sub = _Census(h, self.callees_ok, self.methods_ok, self.resolve, self.stack)
+                    for st in sub.run():
+                        if st['guard'] == 'none' and self.guard(n, st['kind'], None) == 'try':
+                            st['guard'] = 'try'
+                        st['via'] = callee + ('>' + st['via'] if 'via' in st else '')
+                        self.sites.append(st)
+                    self.helpers += [h] + sub.helpers
                 else:
                     self.sites.append(dict(kind='call', line=n.lineno, base=callee, index='', node=n, guard=self.guard(n, 'call', None)))
         return self.sites
@@ -284,8 +330,11 @@ def translate() -> tuple[str, dict]:
         raise TranslateError('_read_flag: unrecognised signature')
     fv = rflag.args.args[1].arg
 
-    sites_p = _Census(parse, PARSE_CALLEES_OK, PARSE_METHODS_OK).run()
-    sites_f = _Census(rflag, FLAG_CALLEES_OK, FLAG_METHODS_OK).run()
+    kv_resolve = _resolver(tree, 'Keyvalues')
+    census_p = _Census(parse, PARSE_CALLEES_OK, PARSE_METHODS_OK, kv_resolve)
+    sites_p = census_p.run()
+    census_f = _Census(rflag, FLAG_CALLEES_OK, FLAG_METHODS_OK, kv_resolve)
+    sites_f = census_f.run()
     par_p = _parents(parse)
 
     cfg = dict(bang_total=True, guard_replace_block=True, guard_replace_leaf=True, guard_single_root=True, close_guarded=True)
@@ -385,18 +434,32 @@ def translate() -> tuple[str, dict]:
     tok_sites: list[dict] = []
     tok_bad_raises: list[int] = []
     tok_raises = tok_design = 0
+    tok_resolve = _resolver(ttree, 'Tokenizer')
+    tok_helpers: dict[str, ast.FunctionDef] = {}
     for fn in TOK_FUNCS:
         f = _find_func(ttree, fn, 'Tokenizer')
-        for st in _Census(f, TOK_CALLEES_OK, TOK_METHODS_OK).run():
+        cen = _Census(f, TOK_CALLEES_OK, TOK_METHODS_OK, tok_resolve)
+        for st in cen.run():
             st['func'] = fn
             tok_sites.append(st)
+        for h in cen.helpers:
+            if h.name not in TOK_FUNCS:
+                tok_helpers[h.name] = h
         # non-str chunks raise ValueError by design (outside the property: the text must be str)
         g, d, bad = _raise_census(f, {'self.error'}, {'ValueError'} if fn == '_next_char' else set())
         tok_raises += g
         tok_design += d
         tok_bad_raises += bad
+    for h in tok_helpers.values():            # helpers extracted from these functions: their raises count like the caller's
+        g, d, bad = _raise_census(h, {'self.error'}, set())
+        tok_raises += g
+        tok_bad_raises += bad
     tok_unguarded = [st for st in tok_sites if st['guard'] == 'none']
     pg, _pd, parse_bad_raises = _raise_census(parse, {'tokenizer.error', 'KeyValError'}, set())
+    for h in {h.name: h for h in census_p.helpers + census_f.helpers}.values():
+        g, _d, bad = _raise_census(h, {'tokenizer.error', 'KeyValError'}, set())
+        pg += g
+        parse_bad_raises += bad
 
     allsites = sites_f + sites_p
     lines = [
